@@ -2,12 +2,13 @@
 (* Code -> spec.  Three kinds of observations of the real code are judged against Links' oracle:                      *)
 (*  "expr":   evaluate(expression, exchange) -> value / unresolvable / rejected at parse time / error at evaluation   *)
 (*  "status": the statuses for which the real state machine routes a response into the bundle of a link key          *)
-(*  "live":   one link-derived request as the server received it + the source exchange as the server saw it          *)
+(*  "tree":   evaluate(JSON tree, exchange, evaluate_nested) for requestBody-like values                                *)
+(*  "live":   one link-derived request as the server received it (or, strict, one Transition returned by link.extract)   *)
 EXTENDS Links, IOUtils
 Obs == JsonDeserialize(IOEnv.OBS_FILE)
 VARIABLE i
-jvars == <<fam, e, xid, key, keys, out, i>>
-JInit == i \in 1..Len(Obs) /\ fam = "judge" /\ e = <<>> /\ xid = "" /\ key = "" /\ keys = {} /\ out = Pending
+jvars == <<fam, e, tree, xid, key, keys, out, i>>
+JInit == i \in 1..Len(Obs) /\ fam = "judge" /\ e = <<>> /\ tree = Null /\ xid = "" /\ key = "" /\ keys = {} /\ out = Pending
 JNext == UNCHANGED jvars
 JSpec == JInit /\ [][JNext]_jvars
 
@@ -26,21 +27,15 @@ ParamOK(p, x) == LET exp == Eval(p.expr, x) IN
                    IF exp.k = "val" /\ exp.v.t \in {"str", "int"} THEN p.sent /\ p.text = TextOf(exp)
                    ELSE IF exp.k \in {"unres", "malformed", "badptr"} THEN ~HasSub(p.text, Marker)
                    ELSE TRUE
-RECURSIVE EvalTree(_, _)
-EvalTree(d, x) == IF d.t = "str" THEN (LET r == Eval(d.s, x) IN IF r.k = "val" THEN r.v ELSE Unres)
-                  ELSE IF d.t \in {"arr", "obj"}
-                       THEN LET items == [n \in 1..Len(d.a) |-> EvalTree(d.a[n], x)] IN
-                              IF \E n \in 1..Len(items) : items[n].t = "unres" THEN Unres
-                              ELSE IF d.t = "arr" THEN Arr(items) ELSE Obj(d.k, items)
-                  ELSE d
 BodyOK(b, x) == ~b.has \/ LET exp == EvalTree(b.def, x) IN
-                            IF exp.t = "unres" THEN TRUE
+                            IF exp.t = "unres" THEN (b.strict => b.sent.t = "none")   \* nothing of the link is passed on
                             ELSE IF b.merge /\ exp.t = "obj" /\ b.sent.t = "obj"
                                  THEN \A n \in 1..Len(exp.k) : Child(b.sent, exp.k[n]) = exp.a[n]     \* link values override generated ones
                                  ELSE b.sent = exp
 StatusOK(r) == LinkMatches(r.key, r.x.status, SeqSet(r.keys))
 Report == LET r == Obs[i] IN
             IF r.kind = "expr" THEN (IF AgreeExpr(Eval(r.e, r.x), r.obs) THEN TRUE ELSE PrintT(<<"DISAGREE", i, "expr", 0>>))
+            ELSE IF r.kind = "tree" THEN (IF AgreeExpr(TreeResult(r.tree, r.x), r.obs) THEN TRUE ELSE PrintT(<<"DISAGREE", i, "tree", 0>>))
             ELSE IF r.kind = "status" THEN (IF StatusSound(r) THEN TRUE ELSE PrintT(<<"DISAGREE", i, "status", 0>>))
             ELSE /\ IF StatusOK(r) THEN TRUE ELSE PrintT(<<"DISAGREE", i, "live-status", 0>>)
                  /\ IF BodyOK(r.body, r.x) THEN TRUE ELSE PrintT(<<"DISAGREE", i, "live-body", 0>>)
